@@ -150,8 +150,8 @@ func (g *grpcHandler) NewConn(
 	// send the error to the client later on.
 	requestCompression, responseCompression, failed := negotiateCompression(
 		g.CompressionPools,
-		request.Header.Get(grpcHeaderCompression),
-		request.Header.Get(grpcHeaderAcceptCompression),
+		headerList(request.Header, grpcHeaderCompression),
+		headerList(request.Header, grpcHeaderAcceptCompression),
 	)
 
 	// Write any remaining headers here:
